@@ -96,6 +96,23 @@ def prog_key(P):
     return json.dumps({k: v for k, v in P.items() if k != "caller"}, sort_keys=True)
 
 
+def held_gates(r):
+    """free-running panic runs of the thread-spawning macros: the gates of higher-numbered siblings of the panicking branch stay
+    closed until the caller has its result, if the panic is raised on a branch thread in the step the gates belong to
+    (ids: 100 * (branch + 1) + 10 * step + position; the specification lets the panic surface once the LOWER siblings are done)"""
+    k = r["prog"]["kind"]
+    if k["async"] or not k["spawn"]:
+        return []
+    pans = [p for p in r["plan"] if p["a"] == "panic" and p["t"] in ("f", "i", "o")]
+    if len(pans) != 1 or any(p["a"] == "fail" for p in r["plan"]):
+        return []
+    pid_ = pans[0]["id"]
+    if pid_ >= 10000:
+        return []
+    pb, pstep = pid_ // 100 - 1, (pid_ % 100) // 10
+    return [g for g in r["gates"] if g // 100 - 1 > pb and (g % 100) // 10 == pstep]
+
+
 def build_and_run(pid, runs, verdict, ncrates=16, grace_ms=0, extra_run_fields=None, tag="ws", bounds=False):
     """Compiles the distinct programs of `runs`, executes every run, returns list of
     (run, [event json strings]) and build statistics."""
@@ -171,6 +188,8 @@ def build_and_run(pid, runs, verdict, ncrates=16, grace_ms=0, extra_run_fields=N
               "sched": sched_for_rt(r["prog"], r.get("sched", [])), "grace_ms": grace_ms, "auto": r.get("auto", True)}
         if extra_run_fields:
             rr.update(extra_run_fields)
+            if extra_run_fields.get("auto_release"):
+                rr["hold_until_end"] = held_gates(r)
         per_crate.setdefault(crate_of[fn], []).append(rr)
     outdir = C.workdir(pid, "traces")
     t1 = time.time()
